@@ -1,0 +1,51 @@
+//go:build verif
+
+// Contracts for the deductive checks in /verif (comment-only; compiled only with -tags verif,
+// and even then contains no code). Syntax: /verif/DESIGN.md section 2.3.
+
+package dotenv
+
+//@ func isSpace
+//@   nopanic[C01,C18]
+//@   ensures[C18] result <==> (r == 9 || r == 11 || r == 12 || r == 13 || r == 32 || r == 133 || r == 160)
+
+//@ func hasQuotePrefix
+//@   nopanic[C01,C18]
+//@   ensures[C18] result.1 <==> (len(src) >= 1 && (sat(src, 0) == '"' || sat(src, 0) == '\''))
+//@   ensures[C18] result.1 ==> result.0 == sat(src, 0)
+//@   ensures[C18] !result.1 ==> result.0 == 0
+
+//@ func (*parser).indexOfNonSpaceChar
+//@   nopanic[C01,C18]
+//@   ensures[C18] -1 <= result && result < len(src)
+
+//@ func (*parser).getStatementStart
+//@   nopanic[C01,C18]
+//@   ensures[C18] len(result) <= len(src)
+//@   ensures[C18] len(result) >= 1 ==> sat(result, 0) != '#'
+
+//@ func (*parser).locateKeyName
+//@   nopanic[C01,C18]
+//@   ensures[C18] err == nil ==> len(result.1) <= len(src)
+//@   ensures[C18] err == nil ==> len(src) >= 1
+//@   ensures[C18] err != nil ==> result.0 == "" && result.1 == ""
+
+//@ func (*parser).extractVarValue
+//@   nopanic[C01,C18]
+//@   ensures[C18] err == nil ==> len(result.1) <= len(src)
+//@   ensures[C18] err == nil && len(src) >= 1 && (sat(src, 0) == '"' || sat(src, 0) == '\'') ==> len(result.1) < len(src)
+//@   loop 1
+//@     invariant[C18] 1 <= i && i <= len(src)
+//@     decreases[C01,C18] len(src) - i
+
+//@ func (*parser).parse
+//@   nopanic[C01,C18]
+//@   requires out != nil
+
+//@ func UnmarshalWithLookup
+//@   nopanic[C01,C18]
+//@   ensures[C18] result.0 != nil
+
+//@ func newParser
+//@   nopanic[C01,C18]
+//@   ensures result != nil && fresh(result)
